@@ -988,6 +988,14 @@ func (x *Exec) equal(s *State, l, r Val, lt, rt types.Type, pos token.Pos) strin
 	if r.K == KIface && l.K != KIface && l.K != KNone {
 		l = x.convertTo(s, l, r.T, pos)
 	}
+	if l.K == KArr {
+		if n, ok := arrLenOf(l.T); ok {
+			return arrEq(l.S, r.S, n)
+		}
+		if n, ok := arrLenOf(r.T); ok {
+			return arrEq(l.S, r.S, n)
+		}
+	}
 	switch l.K {
 	case KInt, KBool, KStr, KFloat, KArr:
 		return mkEq(l.S, r.S)
